@@ -693,9 +693,9 @@ struct RcptInfo {
 struct Shared {
     /// (serial, reception id, frame, system stamp) in the order in which the tap
     /// received them
-    tapped: Vec<(u64, u32, Vec<u8>, f64)>,
-    /// reception id -> (simulated instant at which the tap saw it, wall-clock offset then)
-    tap_time: HashMap<u32, (u64, i64)>,
+    /// (serial, frame, system stamp, simulated instant at the tap, wall-clock
+    /// offset then) in the order in which the tap received them
+    tapped_raw: Vec<(u64, Vec<u8>, f64, u64, i64)>,
     /// records in the order in which update_snapshot completed (post-decode)
     done: Vec<TimedMessage>,
     shadow_tables: Vec<String>,
@@ -874,8 +874,7 @@ pub fn execute(plan: &PipelinePlan, prop: &'static str) -> Outcome<PipelinePlan>
     let (tx_in, rx_in) = tokio::sync::mpsc::channel::<TimedMessage>(cap);
     let (tx_dedup, rx_dedup) = tokio::sync::mpsc::channel::<TimedMessage>(cap);
     let shared = Rc::new(RefCell::new(Shared {
-        tapped: Vec::new(),
-        tap_time: HashMap::new(),
+        tapped_raw: Vec::new(),
         done: Vec::new(),
         shadow_tables: Vec::new(),
         observations: Vec::new(),
@@ -921,12 +920,11 @@ pub fn execute(plan: &PipelinePlan, prop: &'static str) -> Outcome<PipelinePlan>
         sim.spawn("tap(stub)", async move {
             while let Some(m) = rx_in.recv().await {
                 if let Some(md) = m.metadata.first() {
-                    let id = id_of(md);
-                    exec::log_u64(0x7A00_0000_0000 | id as u64);
-                    exec::trace(|| format!("tap: serial={} id={} frame={} stamp={:.6}", md.serial, id, world::hex(&m.frame), m.timestamp - exec::EPOCH_S as f64));
-                    let mut shm = sh.borrow_mut();
-                    shm.tapped.push((md.serial, id, m.frame.clone(), m.timestamp));
-                    shm.tap_time.insert(id, (exec::now_ns(), exec::wall_offset_ns()));
+                    let mut fh = Fnv::new();
+                    fh.bytes(&m.frame);
+                    exec::log_u64(0x7A00_0000_0000 ^ fh.0);
+                    exec::trace(|| format!("tap: serial={} frame={} stamp={:.6}", md.serial, world::hex(&m.frame), m.timestamp - exec::EPOCH_S as f64));
+                    sh.borrow_mut().tapped_raw.push((md.serial, m.frame.clone(), m.timestamp, exec::now_ns(), exec::wall_offset_ns()));
                 }
                 if tx_tap.capacity() == 0 {
                     *bp.borrow_mut() += 1;
@@ -1082,11 +1080,40 @@ pub fn execute(plan: &PipelinePlan, prop: &'static str) -> Outcome<PipelinePlan>
     }
     let epoch = exec::EPOCH_S as f64;
 
+    // Which reception is which: a reception is identified by the receiver that
+    // heard it (the serial on its metadata), the frame, and its rank among that
+    // receiver's receptions of that frame (each receiver's stream is handed on in
+    // order). Nothing else of the metadata is relied upon.
+    let build_queues = || -> HashMap<(u64, Vec<u8>), std::collections::VecDeque<u32>> {
+        let mut q: HashMap<(u64, Vec<u8>), std::collections::VecDeque<u32>> = HashMap::new();
+        for j in 0..n_rx {
+            for (_, id) in per_rx[j].iter() {
+                q.entry((serial_of[j], info[id].frame.clone())).or_default().push_back(*id);
+            }
+            q.entry((serial_of[j], world::df11(0xFF_FFF0 + j as u32, 7))).or_default().push_back(FLUSH_BASE + j as u32);
+            q.entry((serial_of[j], vec![0x21, 0x43])).or_default().push_back(FLUSH_BASE + 0x40 + j as u32);
+            if j == 0 {
+                q.entry((serial_of[j], world::df11(0xFF_FFE0, 7))).or_default().push_back(FLUSH_BASE + 0x80);
+                q.entry((serial_of[j], vec![0x21, 0x44])).or_default().push_back(FLUSH_BASE + 0xC0);
+            }
+        }
+        q
+    };
+    let mut q_tap = build_queues();
+    let mut tapped: Vec<(u64, u32, Vec<u8>, f64)> = Vec::new();
+    let mut tap_time: HashMap<u32, (u64, i64)> = HashMap::new();
+    for (serial, frame, stamp, t_tap, off) in sh.tapped_raw.iter() {
+        // (u32::MAX - 1: handed on by a receiver, but not one of its frames)
+        let id = q_tap.get_mut(&(*serial, frame.clone())).and_then(|d| d.pop_front()).unwrap_or(u32::MAX - 1);
+        tapped.push((*serial, id, frame.clone(), *stamp));
+        tap_time.insert(id, (*t_tap, *off));
+    }
+
     // -- C09 at the tap: per receiver, exactly the frames of its wire, in order, unmodified
     if plan.tap {
-        out.count("frames_through_receiver", sh.tapped.len() as u64);
+        out.count("frames_through_receiver", tapped.len() as u64);
         for j in 0..n_rx {
-            let got: Vec<&(u64, u32, Vec<u8>, f64)> = sh.tapped.iter().filter(|t| t.0 == serial_of[j]).collect();
+            let got: Vec<&(u64, u32, Vec<u8>, f64)> = tapped.iter().filter(|t| t.0 == serial_of[j]).collect();
             let want: Vec<u32> = per_rx[j].iter().map(|x| x.1).collect();
             let mut prev_stamp = 0.0f64;
             for (k, g) in got.iter().enumerate() {
@@ -1152,10 +1179,21 @@ pub fn execute(plan: &PipelinePlan, prop: &'static str) -> Outcome<PipelinePlan>
 
     // -- C10 on the records that left dedup (= the records the main loop processed)
     let mut seen: HashMap<u32, usize> = HashMap::new();
-    let tap_pos: HashMap<u32, usize> = sh.tapped.iter().enumerate().map(|(i, t)| (t.1, i)).collect();
+    let tap_pos: HashMap<u32, usize> = tapped.iter().enumerate().map(|(i, t)| (t.1, i)).collect();
+    let mut q_rec = build_queues();
+    // reception ids of the members of every record, in the order listed
+    let mut rec_ids: Vec<Vec<u32>> = Vec::new();
     let mut multi_rx_records = 0u64;
     for (k, m) in sh.done.iter().enumerate() {
-        let ids: Vec<u32> = m.metadata.iter().map(id_of).collect();
+        let ids: Vec<u32> = m
+            .metadata
+            .iter()
+            .map(|md| match q_rec.get_mut(&(md.serial, m.frame.clone())) {
+                Some(d) => d.pop_front().unwrap_or(u32::MAX - 2), // listed more often than heard
+                None => u32::MAX - 1,                             // never heard by that receiver
+            })
+            .collect();
+        rec_ids.push(ids.clone());
         if ids.is_empty() {
             viols.push(Violation::new("c10.1-conservation", "empty-record", format!("pipeline: record #{} carries no reception", k)));
             continue;
@@ -1171,7 +1209,8 @@ pub fn execute(plan: &PipelinePlan, prop: &'static str) -> Outcome<PipelinePlan>
                 continue;
             }
             match info.get(id) {
-                None => viols.push(Violation::new("c10.1-conservation", "invented", format!("pipeline: record #{} carries reception id {} that no receiver heard", k, id))),
+                None if *id == u32::MAX - 2 => viols.push(Violation::new("c10.1-conservation", "duplicated", format!("pipeline: record #{} lists a reception of frame {} by sensor {} once more than that receiver heard it", k, world::hex(&m.frame), m.metadata[i].serial))),
+                None => viols.push(Violation::new("c10.1-conservation", "invented", format!("pipeline: record #{} lists a reception of frame {} by sensor {}, which never heard that frame", k, world::hex(&m.frame), m.metadata[i].serial))),
                 Some(inf) => {
                     if inf.frame != m.frame {
                         viols.push(Violation::new("c10.2-content", "frame-mismatch", format!("pipeline: record #{} has frame {} but its member #{} was received as {}", k, world::hex(&m.frame), id, world::hex(&inf.frame))));
@@ -1212,13 +1251,13 @@ pub fn execute(plan: &PipelinePlan, prop: &'static str) -> Outcome<PipelinePlan>
         let w_ms = plan.window_ms as i64;
         let ms = |t: f64| (t * 1e3) as i64;
         // suffix maximum of the stamps in arrival order
-        let n = sh.tapped.len();
+        let n = tapped.len();
         let mut later_max = vec![i64::MIN; n + 1];
         for k in (0..n).rev() {
-            later_max[k] = later_max[k + 1].max(ms(sh.tapped[k].3));
+            later_max[k] = later_max[k + 1].max(ms(tapped[k].3));
         }
         let mut lost: Vec<u32> = Vec::new();
-        for (k, t) in sh.tapped.iter().enumerate() {
+        for (k, t) in tapped.iter().enumerate() {
             let id = t.1;
             let Some(inf) = info.get(&id) else { continue };
             if inf.decodable && !seen.contains_key(&id) && later_max[k + 1] >= ms(t.3) + w_ms + 1 {
@@ -1236,7 +1275,7 @@ pub fn execute(plan: &PipelinePlan, prop: &'static str) -> Outcome<PipelinePlan>
         }
     }
     if plan.tap {
-        let stamps: Vec<f64> = sh.tapped.iter().map(|t| t.3).collect();
+        let stamps: Vec<f64> = tapped.iter().map(|t| t.3).collect();
         let monotone = stamps.windows(2).all(|w| w[0] <= w[1]);
         if monotone {
             out.count("mono_clauses_judged", 1);
@@ -1272,7 +1311,7 @@ pub fn execute(plan: &PipelinePlan, prop: &'static str) -> Outcome<PipelinePlan>
         // the property's "locally swapped timestamps".
         let mut clean: HashMap<u32, (bool, f64)> = HashMap::new(); // icao -> (session clean, last stamp)
         for (k, m) in sh.done.iter().enumerate() {
-            let Some(id) = m.metadata.first().map(id_of) else { continue };
+            let Some(id) = rec_ids.get(k).and_then(|v| v.first().copied()) else { continue };
             let Some(inf) = info.get(&id) else { continue };
             let txp = &plan.txs[inf.tx];
             if txp.kind != 0 || inf.flipped {
@@ -1284,7 +1323,7 @@ pub fn execute(plan: &PipelinePlan, prop: &'static str) -> Outcome<PipelinePlan>
             // a wrong stamp is the system's doing and its consequences are judged);
             // a wall-clock step in effect counts as a timing fault of its own.
             // Without the tap the stamp is all there is.
-            let timing_ok = match sh.tap_time.get(&id) {
+            let timing_ok = match tap_time.get(&id) {
                 Some((t_tap, off)) => *off == 0 && t_tap.saturating_sub(txp.t_ns) <= 3_000_000_000,
                 None => {
                     let skew = (m.timestamp - epoch) - txp.t_ns as f64 * 1e-9;
